@@ -39,12 +39,33 @@ def run_shards(func, shards, jobs=None, seed=None, report=None, maxtasksperchild
             sys.exit(2)
     ctx = mp.get_context("fork")
     pool = ctx.Pool(min(jobs, len(shards)), maxtasksperchild=maxtasksperchild)
+    stall = float(os.environ.get("VERIF_STALL", "1500"))
+    done = 0
     try:
         results = pool.imap_unordered(_call, [(func, s) for s in shards], chunksize=1)
-        out = _collect(results, report)
+        while True:
+            try:
+                status, payload = results.next(timeout=stall)
+            except StopIteration:
+                break
+            except mp.TimeoutError:
+                # no shard finished for `stall` seconds: the code under test does not terminate on some case.  That is a
+                # verdict about the library (every call must complete), reported as a violation instead of hanging the check
+                pool.terminate()
+                pool.join()
+                report.violation({"check": "no_progress", "problem": "a case does not terminate"},
+                                 f"no shard of {getattr(func, '__module__', '?')}.{getattr(func, '__name__', '?')} finished within "
+                                 f"{stall:.0f} s ({done} of {len(shards)} shards done): some case makes the library loop forever",
+                                 {"stalled_after_shards": done, "shards_total": len(shards), "first_unfinished": repr(shards[:3])[:500]})
+                report.capped = True
+                return report
+            if status == "err":
+                raise _WorkerFailed(payload)
+            report.merge(payload)
+            done += 1
         pool.close()
         pool.join()
-        return out
+        return report
     except _WorkerFailed as e:
         pool.terminate()
         pool.join()
